@@ -127,6 +127,9 @@ func (b *pbroker) serve(c net.Conn, id int) {
 			b.attempts[key] = n + 1
 			b.mu.Unlock()
 			o := b.onProd(key, n)
+			if o == "silent" {
+				return
+			}
 			if o == "drop" {
 				b.rec.add("pr/%s/temp", key) // the connection breaks: a transient network error for the Writer
 				return
@@ -166,6 +169,14 @@ func wtScenario(kind int, r *rand.Rand, salt uint64) (string, string) {
 	}
 	planner := &fakeRT{salt: salt, pOk: pOk, pTemp: pTemp}
 	br.onProd = func(ids string, n int) string {
+		if kind == 6 {
+			// read and never answered: for the Writer a transient failure of the attempt (its timeout); journalled now,
+			// the connection is dropped when the scenario ends
+			rec.add("pr/%s/temp", ids)
+			atomic.AddInt32(&heldN, 1)
+			<-release
+			return "silent"
+		}
 		if kind == 1 || kind == 4 {
 			atomic.AddInt32(&heldN, 1)
 			<-release
@@ -179,10 +190,14 @@ func wtScenario(kind int, r *rand.Rand, salt uint64) (string, string) {
 	if kind == 2 || r.Intn(3) == 0 {
 		br.metaWait = func() time.Duration { return time.Duration(5+rand.Intn(25)) * time.Millisecond }
 	}
+	rwTimeout := 2 * time.Second
+	if kind == 6 {
+		rwTimeout = 250 * time.Millisecond // the only thing that ends a produce request the broker never answers
+	}
 	w := kafka.NewWriter(kafka.WriterConfig{
 		Brokers: []string{br.addr()}, Topic: "t", MaxAttempts: cfgMa, BatchSize: cfgBs, BatchTimeout: 2 * time.Millisecond,
 		RequiredAcks: 1, IdleConnTimeout: 50 * time.Millisecond, RebalanceInterval: 30 * time.Millisecond,
-		ReadTimeout: 2 * time.Second, WriteTimeout: 2 * time.Second,
+		ReadTimeout: rwTimeout, WriteTimeout: rwTimeout,
 		Balancer: kafka.BalancerFunc(func(m kafka.Message, parts ...int) int {
 			k, _ := strconv.Atoi(string(m.Key))
 			return parts[k%len(parts)]
@@ -283,6 +298,13 @@ func wtScenario(kind int, r *rand.Rand, salt uint64) (string, string) {
 		closeBegin()
 		time.Sleep(time.Duration(5+r.Intn(20)) * time.Millisecond)
 		doRelease()
+	case 6: // the broker reads the produce request and never answers it; Close.  The attempts end through WriteTimeout /
+		// ReadTimeout (250 ms here, ≤ 3 attempts), then the Completion runs and Close returns — well inside the watchdog
+		begin(1 + r.Intn(2))
+		for i := 0; i < 400 && atomic.LoadInt32(&heldN) == 0; i++ {
+			time.Sleep(time.Millisecond)
+		}
+		closeBegin()
 	case 5: // use after Close
 		c := begin(1)
 		waitCall(c)
@@ -342,7 +364,7 @@ func wtPart(seed int64) {
 	}
 	n := 1000 // scenario numbers of this family start at 1001 (the op is `wclose` as well)
 	for rep := 0; rep < reps; rep++ {
-		for kind := 0; kind < 6; kind++ {
+		for kind := 0; kind < 7; kind++ {
 			n++
 			if tooManyStuck() {
 				return
